@@ -17,7 +17,9 @@ import (
 	"verif/harness/vh"
 )
 
-func main() { vh.Main(map[string]vh.Suite{"C25": {Corr: "Corr.C25Corr", Run: run}}) }
+func main() {
+	vh.Main(map[string]vh.Suite{"C25": {Corr: "Corr.C25Corr", Run: run}, "C25race": {Corr: "Corr.C25Corr", Run: runRace}})
+}
 
 type combo struct {
 	version, suite uint16
